@@ -97,6 +97,60 @@ def rule12(ctx, rep):
                 f'the constructor raises for day 29-31 in shorter months and for any value outside 1..31',
             )
             if kind == 'dom':
+                # year / month carry of the monthly candidate, evaluated for every month of the year (added after seeded
+                # change C20-3: `nm = now.month % 12 + 1; year = now.year + nm // 12` takes the carry from the wrong month:
+                # 13 months ahead in November, 11 months in the past in December)
+                r2.instance()
+
+                def ev(e, mth, depth=0):
+                    if isinstance(e, ast.Constant) and isinstance(e.value, int):
+                        return e.value
+                    if isinstance(e, ast.Attribute) and e.attr == 'month':
+                        return mth
+                    if isinstance(e, ast.Attribute) and e.attr == 'year':
+                        return 2000
+                    if isinstance(e, ast.Name) and depth < 6:
+                        defs = _local_def(f, e.id)
+                        if len(defs) == 1:
+                            return ev(defs[0], mth, depth + 1)
+                        raise _NU(e.id)
+                    if isinstance(e, ast.BinOp):
+                        a, b = ev(e.left, mth, depth), ev(e.right, mth, depth)
+                        ops = {ast.Add: lambda: a + b, ast.Sub: lambda: a - b, ast.Mult: lambda: a * b, ast.Mod: lambda: a % b, ast.FloorDiv: lambda: a // b}
+                        if type(e.op) in ops:
+                            return ops[type(e.op)]()
+                    if isinstance(e, ast.IfExp):
+                        return ev(e.body, mth, depth) if evc(e.test, mth, depth) else ev(e.orelse, mth, depth)
+                    if isinstance(e, ast.Call) and call_name(e) == 'int' and len(e.args) == 1:
+                        return ev(e.args[0], mth, depth)
+                    raise _NU(norm(e))
+
+                def evc(e, mth, depth):
+                    if isinstance(e, ast.Compare) and len(e.ops) == 1:
+                        a, b = ev(e.left, mth, depth), ev(e.comparators[0], mth, depth)
+                        return {ast.Lt: a < b, ast.LtE: a <= b, ast.Gt: a > b, ast.GtE: a >= b, ast.Eq: a == b, ast.NotEq: a != b}[type(e.ops[0])]
+                    if isinstance(e, ast.BoolOp):
+                        vals = [evc(v, mth, depth) for v in e.values]
+                        return all(vals) if isinstance(e.op, ast.And) else any(vals)
+                    raise _NU(norm(e))
+
+                try:
+                    wrong = []
+                    for mth in range(1, 13):
+                        got = (ev(y, mth) - 2000, ev(m, mth))
+                        ok_set = {(0, mth), (0, mth + 1)} if mth < 12 else {(0, 12), (1, 1)}
+                        if got not in ok_set:
+                            wrong.append((mth, got))
+                    r2.extra['dom_months_evaluated'] = 12
+                    r2.check(
+                        not wrong,
+                        f'{f.qname}:dom-year-carry',
+                        where(f, c),
+                        'the candidate is this month or the next one, with the year carried exactly from December to January, for all 12 months',
+                        f'the monthly candidate (year offset, month) is wrong for {", ".join(f"month {a}: {b}" for a, b in wrong[:4])}: year={norm(y)}, month={norm(m)}',
+                    )
+                except _NU as e_:
+                    r2.note(f'monthly candidate not evaluated (depends on {e_}); the control-dependence clause below still applies')
                 r2.instance()
                 # the month must depend on a comparison between the event's day-of-month (or the candidate moment) and now
                 deps = set()
@@ -437,10 +491,36 @@ def rule5(ctx, rep, fl):
     c = prog.nfunc(SCHED + '.complete')
     with rep.rule(
         'R-C20-5',
-        'recurrence: the status a node is left in when its last target completes is admitted by defer\'s eligibility filter, and every pass of defer re-arms a future defer',
-        floor=2,
+        'recurrence: the status a node is left in when its last target completes is admitted by defer\'s eligibility filter, every pass of defer re-arms a future defer, and every timer is armed with a wrapper constructed for it',
+        floor=4,
         breaks='a weekly or monthly event fires once per process and never again',
     ) as r:
+        # (0) every timer gets its own one-shot wrapper: DeferWithLogOnError owns a Deferred, which fires once (added after
+        # seeded change C20-5: both callLater sites shared one module-level wrapper; the second expiry raised
+        # AlreadyCalledError inside the reactor and defer() was never entered again)
+        WRAP = 'dawgie.pl.DeferWithLogOnError'
+        for fn in sorted((x for x in prog.funcs.values() if x.module.name == SCHED), key=lambda x: x.qname):
+            g = prog.nfunc(fn.qname)
+            for call in g.calls():
+                if not (isinstance(call.func, ast.Attribute) and call.func.attr == 'callLater' and len(call.args) >= 2):
+                    continue
+                cb = call.args[1]
+                if not (isinstance(cb, ast.Attribute) and cb.attr == 'callback'):
+                    continue
+                r.instance()
+                rep.analysed(g)
+                src = cb.value
+                fresh = isinstance(src, ast.Call) and prog.resolve_in(src.func, g) == WRAP
+                if isinstance(src, ast.Name):
+                    defs = [d for d in g.own_nodes() if isinstance(d, ast.Assign) and any(isinstance(t, ast.Name) and t.id == src.id for t in d.targets)]
+                    fresh = bool(defs) and all(isinstance(d.value, ast.Call) and prog.resolve_in(d.value.func, g) == WRAP for d in defs)
+                r.check(
+                    fresh,
+                    f'{fn.qname}:{norm(call)[:50]}:one-shot-wrapper',
+                    where(g, call),
+                    'the wrapper is constructed for this timer',
+                    f'{fn.qname} arms a timer with {norm(cb)}: the wrapper is not constructed for this timer (module-level or shared object); its Deferred fires once, the second expiry raises AlreadyCalledError and the timers stop',
+                )
         # (a) status typestate
         left = set()
         for op in wsa.ops_in(prog, c):
@@ -591,6 +671,8 @@ def check(ctx):
 
 
 VARIANTS = [
+    V('paused re-arm uses a shared wrapper', 'B', 'pl/schedule.py', 'defer', "dawgie.pl.DeferWithLogOnError(\n                defer,\n                'handling error while scheduling periodic event',\n                __name__,\n            ).callback", '_wakeup.callback', 'R-C20-5'),
+    V('monthly candidate carries the year from the wrong month', 'B', 'pl/schedule.py', '_delay', 'nm = now.month + 1', 'nm = now.month % 12 + 1', 'R-C20-2'),
     V('booted cleared in build', 'B', 'pl/schedule.py', 'build', 'dawgie.pl.schedule.per = []', 'dawgie.pl.schedule.per = []\n    booted.clear()', 'R-C20-4'),
     V('booted rebound in build', 'B', 'pl/schedule.py', 'build', 'dawgie.pl.schedule.per = []', 'dawgie.pl.schedule.per = []\n    dawgie.pl.schedule.booted = []', 'R-C20-4'),
     V('token appended unconditionally', 'B', 'pl/schedule.py', '_delay', 'if when in booted:\n            raise _DelayNotKnowableError()', 'pass', 'R-C20-4'),
